@@ -1256,7 +1256,11 @@ class EventBus:
                     monitor_task.cancel()
                 await monitor_task
             except asyncio.CancelledError:
-                pass  # Expected when we cancel the monitor
+                # Expected when we cancel the monitor. A cancellation of *this* task (stop(), event loop shutdown, a parent
+                # timeout) that arrives during this cleanup must not be swallowed, or the event's next handler would still start
+                current_task = asyncio.current_task()
+                if current_task is not None and current_task.cancelling():
+                    raise
             except Exception as e:
                 # logger.debug(f"❌ {self} Handler monitor task cleanup error for {get_handler_name(handler)}#{str(id(handler))[-4:]}({event}): {type(e).__name__}: {e}")
                 pass
